@@ -273,219 +273,181 @@ LOOP:
 	return c
 }
 
+// skipObject skips an object whose opening brace has just been consumed and checks that
+// it is well formed: the value is ignored, its syntax is not.
 func (s *Stream) skipObject(depth int64) error {
-	braceCount := 1
-	_, cursor, p := s.stat()
+	if s.skipWhiteSpace() == '}' {
+		s.cursor++
+		return nil
+	}
+	if err := s.skipObjectMember(depth); err != nil {
+		return err
+	}
+	return s.skipObjectRest(depth)
+}
+
+// skipObjectRest skips what follows a member's value, up to and including the closing brace.
+func (s *Stream) skipObjectRest(depth int64) error {
 	for {
-		switch char(p, cursor) {
-		case '{':
-			braceCount++
-			depth++
-			if depth > maxDecodeNestingDepth {
-				return errors.ErrExceededMaxDepth(s.char(), s.cursor)
-			}
+		switch s.skipWhiteSpace() {
 		case '}':
-			braceCount--
-			depth--
-			if braceCount == 0 {
-				s.cursor = cursor + 1
-				return nil
-			}
-		case '[':
-			depth++
-			if depth > maxDecodeNestingDepth {
-				return errors.ErrExceededMaxDepth(s.char(), s.cursor)
-			}
-		case ']':
-			depth--
-		case '"':
-			for {
-				cursor++
-				switch char(p, cursor) {
-				case '\\':
-					cursor++
-					if char(p, cursor) == nul {
-						s.cursor = cursor
-						if s.read() {
-							_, cursor, p = s.stat()
-							continue
-						}
-						return errors.ErrUnexpectedEndOfJSON("string of object", cursor)
-					}
-				case '"':
-					goto SWITCH_OUT
-				case nul:
-					s.cursor = cursor
-					if s.read() {
-						_, cursor, p = s.statForRetry()
-						continue
-					}
-					return errors.ErrUnexpectedEndOfJSON("string of object", cursor)
-				}
-			}
+			s.cursor++
+			return nil
+		case ',':
+			s.cursor++
 		case nul:
-			s.cursor = cursor
-			if s.read() {
-				_, cursor, p = s.stat()
-				continue
-			}
-			return errors.ErrUnexpectedEndOfJSON("object of object", cursor)
+			return errors.ErrUnexpectedEndOfJSON("object of object", s.totalOffset())
+		default:
+			return errors.ErrExpected("comma after object element", s.totalOffset())
 		}
-	SWITCH_OUT:
-		cursor++
+		if err := s.skipObjectMember(depth); err != nil {
+			return err
+		}
 	}
 }
 
+// skipObjectMember skips "key": value.
+func (s *Stream) skipObjectMember(depth int64) error {
+	switch s.skipWhiteSpace() {
+	case '"':
+	case nul:
+		return errors.ErrUnexpectedEndOfJSON("object of object", s.totalOffset())
+	default:
+		return errors.ErrExpected("object key", s.totalOffset())
+	}
+	if err := s.skipString(); err != nil {
+		return err
+	}
+	if s.skipWhiteSpace() != ':' {
+		return errors.ErrExpected("colon after object key", s.totalOffset())
+	}
+	s.cursor++
+	return s.skipNestedValue(depth)
+}
+
+// skipNestedValue skips a value inside a container of the given depth.
+func (s *Stream) skipNestedValue(depth int64) error {
+	if c := s.skipWhiteSpace(); (c == '{' || c == '[') && depth+1 > maxDecodeNestingDepth {
+		return errors.ErrExceededMaxDepth(c, s.cursor)
+	}
+	return s.skipValue(depth)
+}
+
+// skipArray skips an array whose opening bracket has just been consumed and checks that
+// it is well formed.
 func (s *Stream) skipArray(depth int64) error {
-	bracketCount := 1
-	_, cursor, p := s.stat()
+	if s.skipWhiteSpace() == ']' {
+		s.cursor++
+		return nil
+	}
 	for {
-		switch char(p, cursor) {
-		case '[':
-			bracketCount++
-			depth++
-			if depth > maxDecodeNestingDepth {
-				return errors.ErrExceededMaxDepth(s.char(), s.cursor)
-			}
-		case ']':
-			bracketCount--
-			depth--
-			if bracketCount == 0 {
-				s.cursor = cursor + 1
-				return nil
-			}
-		case '{':
-			depth++
-			if depth > maxDecodeNestingDepth {
-				return errors.ErrExceededMaxDepth(s.char(), s.cursor)
-			}
-		case '}':
-			depth--
-		case '"':
-			for {
-				cursor++
-				switch char(p, cursor) {
-				case '\\':
-					cursor++
-					if char(p, cursor) == nul {
-						s.cursor = cursor
-						if s.read() {
-							_, cursor, p = s.stat()
-							continue
-						}
-						return errors.ErrUnexpectedEndOfJSON("string of object", cursor)
-					}
-				case '"':
-					goto SWITCH_OUT
-				case nul:
-					s.cursor = cursor
-					if s.read() {
-						_, cursor, p = s.statForRetry()
-						continue
-					}
-					return errors.ErrUnexpectedEndOfJSON("string of object", cursor)
-				}
-			}
-		case nul:
-			s.cursor = cursor
-			if s.read() {
-				_, cursor, p = s.stat()
-				continue
-			}
-			return errors.ErrUnexpectedEndOfJSON("array of object", cursor)
+		if err := s.skipNestedValue(depth); err != nil {
+			return err
 		}
-	SWITCH_OUT:
-		cursor++
+		switch s.skipWhiteSpace() {
+		case ']':
+			s.cursor++
+			return nil
+		case ',':
+			s.cursor++
+		case nul:
+			return errors.ErrUnexpectedEndOfJSON("array of object", s.totalOffset())
+		default:
+			return errors.ErrExpected("comma after array element", s.totalOffset())
+		}
 	}
 }
 
-func (s *Stream) skipValue(depth int64) error {
-	_, cursor, p := s.stat()
+// more refills until the byte under the cursor is not the end-of-window mark; it reports
+// false at the end of the input.
+func (s *Stream) more() bool {
+	for s.char() == nul {
+		if !s.read() {
+			return false
+		}
+	}
+	return true
+}
+
+// skipString skips the string whose opening quote is under the cursor, refilling as needed,
+// and checks that it is well formed (no raw control character, only valid escapes).
+func (s *Stream) skipString() error {
 	for {
-		switch char(p, cursor) {
-		case ' ', '\n', '\t', '\r':
-			cursor++
-			continue
-		case nul:
-			s.cursor = cursor
-			if s.read() {
-				_, cursor, p = s.stat()
-				continue
+		s.cursor++
+		if !s.more() {
+			return errors.ErrUnexpectedEndOfJSON("value of string", s.totalOffset())
+		}
+		c := s.char()
+		switch {
+		case c == '"':
+			s.cursor++
+			return nil
+		case c == '\\':
+			s.cursor++
+			if !s.more() {
+				return errors.ErrUnexpectedEndOfJSON("value of string", s.totalOffset())
 			}
-			return errors.ErrUnexpectedEndOfJSON("value of object", s.totalOffset())
-		case '{':
-			s.cursor = cursor + 1
-			return s.skipObject(depth + 1)
-		case '[':
-			s.cursor = cursor + 1
-			return s.skipArray(depth + 1)
-		case '"':
-			for {
-				cursor++
-				switch char(p, cursor) {
-				case '\\':
-					cursor++
-					if char(p, cursor) == nul {
-						s.cursor = cursor
-						if s.read() {
-							_, cursor, p = s.stat()
-							continue
-						}
+			switch s.char() {
+			case '"', '\\', '/', 'b', 'f', 'n', 'r', 't':
+			case 'u':
+				for i := 0; i < 4; i++ {
+					s.cursor++
+					if !s.more() {
 						return errors.ErrUnexpectedEndOfJSON("value of string", s.totalOffset())
 					}
-				case '"':
-					s.cursor = cursor + 1
-					return nil
-				case nul:
-					s.cursor = cursor
-					if s.read() {
-						_, cursor, p = s.statForRetry()
-						continue
-					}
-					return errors.ErrUnexpectedEndOfJSON("value of string", s.totalOffset())
-				}
-			}
-		case '-', '0', '1', '2', '3', '4', '5', '6', '7', '8', '9':
-			start := cursor
-			for {
-				cursor++
-				c := char(p, cursor)
-				if floatTable[c] {
-					continue
-				} else if c == nul {
-					s.cursor = cursor
-					if s.read() {
-						_, cursor, p = s.statForRetry()
-						continue
+					h := s.char()
+					if !(('0' <= h && h <= '9') || ('a' <= h && h <= 'f') || ('A' <= h && h <= 'F')) {
+						return errors.ErrInvalidCharacter(h, "\\u hexadecimal character escape", s.totalOffset())
 					}
 				}
-				s.cursor = cursor
-				if !isValidNumberToken(s.buf[start:cursor]) {
-					return errors.ErrSyntax(invalidNumberLiteral, s.totalOffset())
-				}
-				return nil
+			default:
+				return errors.ErrInvalidCharacter(s.char(), "string escape code", s.totalOffset())
 			}
-		case 't':
-			s.cursor = cursor
-			if err := trueBytes(s); err != nil {
-				return err
-			}
-			return nil
-		case 'f':
-			s.cursor = cursor
-			if err := falseBytes(s); err != nil {
-				return err
-			}
-			return nil
-		case 'n':
-			s.cursor = cursor
-			if err := nullBytes(s); err != nil {
-				return err
-			}
-			return nil
+		case c < 0x20:
+			return errors.ErrInvalidCharacter(c, "string literal", s.totalOffset())
 		}
-		cursor++
 	}
+}
+
+// skipValue skips one value and checks that it is well formed.
+func (s *Stream) skipValue(depth int64) error {
+	switch s.skipWhiteSpace() {
+	case '{':
+		s.cursor++
+		return s.skipObject(depth + 1)
+	case '[':
+		s.cursor++
+		return s.skipArray(depth + 1)
+	case '"':
+		return s.skipString()
+	case '-', '0', '1', '2', '3', '4', '5', '6', '7', '8', '9':
+		start := s.cursor
+		for {
+			s.cursor++
+			c := s.char()
+			if floatTable[c] {
+				continue
+			}
+			if c == nul && s.read() {
+				s.cursor-- // retry this position in the refilled window
+				continue
+			}
+			break
+		}
+		if !isValidNumberToken(s.buf[start:s.cursor]) {
+			return errors.ErrSyntax(invalidNumberLiteral, s.totalOffset())
+		}
+		return nil
+	case 't':
+		return trueBytes(s)
+	case 'f':
+		return falseBytes(s)
+	case 'n':
+		return nullBytes(s)
+	case nul:
+		return errors.ErrUnexpectedEndOfJSON("value of object", s.totalOffset())
+	}
+	return errors.ErrInvalidBeginningOfValue(s.char(), s.totalOffset())
 }
 
 func nullBytes(s *Stream) error {
